@@ -2139,7 +2139,7 @@ fn main() {
     }
     let mut rep = Reporter::new("C17", "exploration", &args);
     let threads = vcore::ncores();
-    let budget_s: f64 = args.tier.pick(50.0, 1100.0);
+    let budget_s: f64 = args.tier.pick(150.0, 1100.0) * vcore::budget_scale();
     let start = std::time::Instant::now();
 
     match self_test() {
